@@ -3,7 +3,7 @@ from props.common import run_all as run  # noqa: F401
 META = {'claimed': True,
  'title': 'Digests, HMACs, PBKDF2 and CRC32C equal their specified functions',
  'level_text': 'proof: alg/sha256.c, sha1.c, md5.c (portable paths) and alg/crc32c.c are modelled in Gallina and instantiated with the round constants, IVs, per-round macro tuples, padding and CRC '
-               'masks/polynomial REGENERATED from the C text on every run. 31 theorems: the three block transforms equal the compression functions of FIPS 180-4 / RFC 3174 / RFC 1321 for every state '
+               'masks/polynomial REGENERATED from the C text on every run. 22 theorems: the three block transforms equal the compression functions of FIPS 180-4 / RFC 3174 / RFC 1321 for every state '
                'and block (C01_transforms_are_the_standards_compression_functions); Init/Update*/Final over EVERY partition and EVERY length equals the standard on the concatenation, one-shot = '
                'streaming (C01_sha256/sha1_correct_all_lengths, C01_md5_correct), also from any well-formed context incl. the carry between the 32-bit count words and the 2^64 wrap '
                '(C01_resume_from_any_context_correct); HMAC-SHA256/SHA1/MD5 = RFC 2104 for every key length (hashed-key branch) and partition; PBKDF2-HMAC-SHA256 = RFC 8018 for 1 <= c < 2^64-1 and '
